@@ -29,6 +29,32 @@ static inline bl_sv bl_sv_char(size_t count, char c) {
   BL_ASSERT(count == 1, "std::string(n, c) is lowered for n == 1 only");
   return r;
 }
+/* string_view::find(char, pos) / rfind(char) / std::count(begin, end, char).  In the unbounded
+ * (modular) route these calls are replaced by the contracts below; the bounded route runs the bodies. */
+#define BL_NPOS ((size_t)-1)
+extern size_t g_fk;   /* ghost index for the "no earlier occurrence" clauses */
+#if defined(NATIVE) || defined(BL_BOUNDED)
+static inline size_t bl_sv_find_char(bl_sv s, char c, size_t pos) { for (size_t k = pos; k < s.n; k++) if (s.p[k] == c) return k; return BL_NPOS; }
+static inline size_t bl_sv_rfind_char(bl_sv s, char c) { for (size_t k = s.n; k > 0; k--) if (s.p[k - 1] == c) return k - 1; return BL_NPOS; }
+static inline size_t bl_sv_count_char(bl_sv s, char c) { size_t r = 0; for (size_t k = 0; k < s.n; k++) if (s.p[k] == c) r++; return r; }
+#else
+size_t bl_sv_find_char(bl_sv s, char c, size_t pos)
+__CPROVER_assigns()
+__CPROVER_ensures(__CPROVER_return_value == BL_NPOS || (__CPROVER_return_value >= pos && __CPROVER_return_value < s.n && s.p[__CPROVER_return_value] == c))
+__CPROVER_ensures((g_fk >= pos && g_fk < s.n && g_fk < __CPROVER_return_value) ==> s.p[g_fk] != c)
+;
+size_t bl_sv_rfind_char(bl_sv s, char c)
+__CPROVER_assigns()
+__CPROVER_ensures(__CPROVER_return_value == BL_NPOS || (__CPROVER_return_value < s.n && s.p[__CPROVER_return_value] == c))
+__CPROVER_ensures((g_fk < s.n && (__CPROVER_return_value == BL_NPOS || g_fk > __CPROVER_return_value)) ==> s.p[g_fk] != c)
+;
+size_t bl_sv_count_char(bl_sv s, char c)
+__CPROVER_assigns()
+__CPROVER_ensures(__CPROVER_return_value <= s.n)
+__CPROVER_ensures((g_fk < s.n && s.p[g_fk] == c) ==> __CPROVER_return_value >= 1)
+;
+#endif
+
 /* <cctype>, "C" locale, argument already converted to unsigned char by the caller */
 static inline int bl_isdigit(int c) { return c >= '0' && c <= '9'; }
 static inline int bl_isalpha(int c) { return (c >= 'a' && c <= 'z') || (c >= 'A' && c <= 'Z'); }
